@@ -316,3 +316,37 @@ func (c *Child) WaitLine(d time.Duration) (string, bool) {
 		return "", false
 	}
 }
+
+// NoCtxAPI: proxy fields without a context parameter (supported signatures), one of them returning a channel.
+type NoCtxAPI struct {
+	SubPlain func(int, int) (<-chan int, error) `rpc_method:"SH.Sub"`
+	Add      func(int, int) (int, error)        `rpc_method:"SH.Add"`
+}
+
+// NoCtxMain is the body of the "victim-noctx" subcommand: a client whose channel-returning proxy field takes
+// no context subscribes to n values and reports what it received as JSON lines.
+func NoCtxMain(url string) {
+	out := json.NewEncoder(os.Stdout)
+	var c NoCtxAPI
+	closer, err := jsonrpc.NewMergeClient(context.Background(), url, "SH", []interface{}{&c}, nil, jsonrpc.WithNoReconnect())
+	if err != nil {
+		out.Encode(map[string]interface{}{"ev": "dial-error", "err": err.Error()})
+		os.Exit(4)
+	}
+	defer closer()
+	if v, err := c.Add(20, 22); err != nil || v != 42 {
+		out.Encode(map[string]interface{}{"ev": "add-failed", "err": errStr(err)})
+		os.Exit(5)
+	}
+	out.Encode(map[string]interface{}{"ev": "add-ok"})
+	ch, err := c.SubPlain(424242, 5)
+	if err != nil || ch == nil {
+		out.Encode(map[string]interface{}{"ev": "sub-failed", "err": errStr(err)})
+		os.Exit(6)
+	}
+	n := 0
+	for range ch {
+		n++
+	}
+	out.Encode(map[string]interface{}{"ev": "closed", "n": n})
+}
